@@ -49,21 +49,21 @@ def rule_l1(ctx: Ctx, m: SharedModel) -> None:
                 # a private function nobody calls directly: it is reached through a table / getattr / a callback – the lock
                 # context of that dynamic call is not known
                 raise AnalysisError(f"{top.where}: writes the shared cache but no direct call of it was found (dynamic dispatch?); whether the lock is held is not decided")
-            ctx.violation("C07-L1", s.fi, s.stmt, f"the shared level cache is mutated ({s.target} {s.op}) without the class lock held; unlocked path: {' -> '.join(p.split(':')[-1] for p in path)}", path=path)
+            ctx.violation("C07-L1", s.fi, s.stmt, f"the shared level cache is mutated ({s.target} {s.op}) without the class lock held; unlocked path: {' -> '.join(p.split(':')[-1] for p in path)}", path=path, robust=True)
     for fi, w, txt in m.bad_lock_exprs:
-        ctx.violation("C07-L2", fi, w, f"`with {txt}` creates a fresh lock for each entry: it excludes nobody")
+        ctx.violation("C07-L2", fi, w, f"`with {txt}` creates a fresh lock for each entry: it excludes nobody", robust=True)
 
 
 def rule_l2(ctx: Ctx, m: SharedModel) -> None:
     repo = ctx.repo
     for fi, w, nm, fresh in m.dynamic_lock_exprs:
         if fresh:
-            ctx.violation("C07-L2", fi, w, f"`with {nm}` may hold a lock object created in this very call (check-then-create on a table that is itself filled without synchronisation): two threads can hold two different locks for the same cache, so the region excludes nobody")
+            ctx.violation("C07-L2", fi, w, f"`with {nm}` may hold a lock object created in this very call (check-then-create on a table that is itself filled without synchronisation): two threads can hold two different locks for the same cache, so the region excludes nobody", robust=True)
         else:
             raise AnalysisError(f"{fi.where}: `with {nm}` uses a lock looked up at run time; whether all threads obtain the same object is not decided")
     if m.lock_name is None:
         if not m.dynamic_lock_exprs:
-            ctx.violation("C07-L2", m.cls.where, m.cls.node, f"{m.cname} has no class/module-level lock bound once; the shared level cache is unprotected", file=m.cls.module.relpath)
+            ctx.violation("C07-L2", m.cls.where, m.cls.node, f"{m.cname} has no class/module-level lock bound once; the shared level cache is unprotected", file=m.cls.module.relpath, robust=True)
         return
     # bound exactly once
     rebinds = []
@@ -75,10 +75,10 @@ def rule_l2(ctx: Ctx, m: SharedModel) -> None:
                     if ch and ch[-1] == m.lock_name:
                         rebinds.append((fi, node))
     for fi, node in rebinds:
-        ctx.violation("C07-L2", fi, node, f"the lock {m.lock_name} is rebound at run time: threads may hold different lock objects")
+        ctx.violation("C07-L2", fi, node, f"the lock {m.lock_name} is rebound at run time: threads may hold different lock objects", robust=True)
     if not m.locked_regions:
         # no acquisition at all: L1 reports the writes; state it here too
-        ctx.violation("C07-L2", m.cls.where, m.lock_node, f"the lock {m.lock_name} is never acquired", file=m.cls.module.relpath)
+        ctx.violation("C07-L2", m.cls.where, m.lock_node, f"the lock {m.lock_name} is never acquired", file=m.cls.module.relpath, robust=True)
         return
     if not rebinds:
         ctx.ok("C07-L2", m.cls.where, f"{m.lock_name} bound once at class/module level to {m.lock_kind}(); acquired in {sorted(w.split(':')[-1] for w in m.locked_regions)}")
@@ -106,7 +106,7 @@ def rule_l3(ctx: Ctx, m: SharedModel) -> None:
                         checked += 1
                         path = m.reaches_acquirer(callee)
                         if path:
-                            ctx.violation("C07-L3", fi, node, f"while holding the non-reentrant lock, {unparse(node.func)}() reaches {path[-1].split(':')[-1]} which acquires it again: self-deadlock", path=[fi.where] + path)
+                            ctx.violation("C07-L3", fi, node, f"while holding the non-reentrant lock, {unparse(node.func)}() reaches {path[-1].split(':')[-1]} which acquires it again: self-deadlock", path=[fi.where] + path, robust=True)
             if isinstance(node, ast.Compare) and any(isinstance(op, (ast.In, ast.NotIn)) for op in node.ops):
                 for comp in node.comparators:
                     if isinstance(comp, ast.Name) and comp.id == self_n:
@@ -115,7 +115,7 @@ def rule_l3(ctx: Ctx, m: SharedModel) -> None:
                             checked += 1
                             path = m.reaches_acquirer(callee)
                             if path:
-                                ctx.violation("C07-L3", fi, node, f"`in {self_n}` while holding the non-reentrant lock reaches {path[-1].split(':')[-1]}: self-deadlock", path=[fi.where] + path)
+                                ctx.violation("C07-L3", fi, node, f"`in {self_n}` while holding the non-reentrant lock reaches {path[-1].split(':')[-1]}: self-deadlock", path=[fi.where] + path, robust=True)
     ctx.ok("C07-L3", m.cls.where, f"{checked} self/cls/Av call(s) made under the lock; none reaches an acquirer ({sorted(a.split(':')[-1] for a in m.acquirers())})")
 
 
@@ -141,14 +141,14 @@ def rule_l4(ctx: Ctx, m: SharedModel) -> None:
             # must be ``self.cache[idx]`` (load) dominated by a locked ensure call with the same idx
             parent = _parent(fi.node, node)
             if not (isinstance(parent, ast.Subscript) and parent.value is node and isinstance(parent.ctx, ast.Load) and not isinstance(parent.slice, ast.Slice)):
-                ctx.violation("C07-L4", fi, m.stmt_of(fi, node), f"unlocked access to the shared cache that is not a plain index load: `{unparse(parent)[:60]}` may observe the list while another thread grows or compacts it")
+                ctx.violation("C07-L4", fi, m.stmt_of(fi, node), f"unlocked access to the shared cache that is not a plain index load: `{unparse(parent)[:60]}` may observe the list while another thread grows or compacts it", robust=True)
                 continue
             idx = unparse(parent.slice)
             stmt = m.stmt_of(fi, node)
             if dominated_by_locked_ensure(m, fi, stmt, idx):
                 ctx.ok("C07-L4", fi.where, f"unlocked index load cache[{idx}] is dominated by a locked ensure call for `{idx}`", stmt, fi)
             else:
-                ctx.violation("C07-L4", fi, stmt, f"unlocked read cache[{idx}] is not preceded on every path by a locked ensure call for `{idx}`: the level may not exist yet or the index may be stale")
+                ctx.violation("C07-L4", fi, stmt, f"unlocked read cache[{idx}] is not preceded on every path by a locked ensure call for `{idx}`: the level may not exist yet or the index may be stale", robust=True)
     if found == 0:
         ctx.ok("C07-L4", m.cls.where, "no access to the shared cache outside the lock")
 
@@ -271,7 +271,7 @@ def rule_p1_p2(ctx: Ctx, m: SharedModel, rule_p1: str, rule_p2: str) -> None:
         if s.kind == ELEM:
             # a published level: key set must not change
             if s.op in ("store", "del", "aug", "slice-store") or s.op in KEY_MUTATORS or s.op in ("add", "discard", "remove", "insert", "append", "extend", "sort", "reverse"):
-                ctx.violation(rule_p1, s.fi, s.stmt, f"key set of a published level ({s.target}) is changed in place ({s.op}): an iterator handed out by of_length() would raise RuntimeError or silently lose members")
+                ctx.violation(rule_p1, s.fi, s.stmt, f"key set of a published level ({s.target}) is changed in place ({s.op}): an iterator handed out by of_length() would raise RuntimeError or silently lose members", robust=True)
             else:
                 ctx.ok(rule_p1, s.fi.where, f"{s.target}.{s.op}", s.stmt, s.fi)
         elif s.kind == VAL:
@@ -284,7 +284,7 @@ def rule_p1_p2(ctx: Ctx, m: SharedModel, rule_p1: str, rule_p2: str) -> None:
             elif (s.stmt.lineno, s.stmt.col_offset) < (pub.lineno, pub.col_offset) and same_block_order(s.fi, s.stmt, pub):
                 ctx.ok(rule_p1, s.fi.where, f"keys are inserted into {s.target} before it is published to the cache", s.stmt, s.fi)
             else:
-                ctx.violation(rule_p1, s.fi, s.stmt, f"{s.target} is modified after it has been published to the shared cache")
+                ctx.violation(rule_p1, s.fi, s.stmt, f"{s.target} is modified after it has been published to the shared cache", robust=True)
         elif s.kind == FIELD:
             if s.op in GROWTH:
                 ctx.ok(rule_p2, s.fi.where, f"cache list grows by {s.op}", s.stmt, s.fi)
@@ -293,11 +293,11 @@ def rule_p1_p2(ctx: Ctx, m: SharedModel, rule_p1: str, rule_p2: str) -> None:
                 if verdict == "copy":
                     ctx.ok(rule_p2, s.fi.where, "levels are replaced by key-preserving copies (compaction)", s.stmt, s.fi)
                 elif verdict == "other":
-                    ctx.violation(rule_p2, s.fi, s.stmt, f"a published level is replaced by `{unparse(s.stmt.value)[:70]}`, which is not a key-preserving copy of the same level: going back to that length would see a different set")
+                    ctx.violation(rule_p2, s.fi, s.stmt, f"a published level is replaced by `{unparse(s.stmt.value)[:70]}`, which is not a key-preserving copy of the same level: going back to that length would see a different set", robust=True)
                 else:
                     raise AnalysisError(f"{s.fi.where}: `{unparse(s.stmt)[:80]}` replaces published levels; whether the replacement keeps their key sets is not recognised")
             elif s.op in ("del", "pop", "clear", "remove", "insert", "reverse", "sort"):
-                ctx.violation(rule_p2, s.fi, s.stmt, f"the cache list is not monotone: {s.target} {s.op}")
+                ctx.violation(rule_p2, s.fi, s.stmt, f"the cache list is not monotone: {s.target} {s.op}", robust=True)
             else:
                 raise AnalysisError(f"{s.fi.where}: `{unparse(s.stmt)[:80]}` changes the cache list ({s.op}); monotonicity not decided")
 
